@@ -306,10 +306,20 @@ func randSMName(r *rand.Rand) string {
 	if fw.Chance(r, 0.8) {
 		return fw.Pick(r, smNamePool)
 	}
+	if fw.Chance(r, 0.5) {
+		// names are arbitrary strings for the builder: bytes that are no UTF-8 (Latin-1 text), names that differ in such a
+		// byte, in letter case, in a trailing blank or in a NUL only, quotes and backslashes, long names
+		return fw.Pick(r, []string{"caf\xe9", "caf\xe8", "caf\xc3\xa9", "\xff", "\xfe", "\xc3", "a\x00", "a\x00b", "a", "A", "a ", " a", "\"", "\\", "a\"b", "a\\", "\n", "a\nb", "\r",
+			"\ufffd", "\xef\xbf\xbd", "caf\ufffd", strings.Repeat("n", 300), strings.Repeat("n", 301), strings.Repeat("é", 130), "𝒳", "\xed\xa0\x80", "0", "00", "constructor", "__proto__", "toString"})
+	}
 	n := 1 + r.IntN(6)
 	b := make([]byte, n)
 	for i := range b {
-		b[i] = "abcdefgXYZ_$019é"[r.IntN(15)]
+		if r.IntN(8) == 0 {
+			b[i] = byte(r.IntN(256))
+		} else {
+			b[i] = "abcdefgXYZ_$019"[r.IntN(15)]
+		}
 	}
 	return string(b)
 }
